@@ -184,7 +184,14 @@ def run(case, j):
     else:
         j.skip("not-in-general-position")
     # ---- distances on the training set
-    ds = np.asarray(j.lib("score_samples", m.score_samples, Xin, y))
+    # the queries come in a container of their own (Fortran order, strided, read-only, a list, ...): the same numbers
+    qform = forms.PRESENT[case["aseed"] % len(forms.PRESENT)]
+    Xq_in = forms.present(Xin, qform)
+    if qform != "C":
+        j.note("queries_in_non_default_containers")
+        if qform == "F" and d > 1 and list(low) != sorted(low):
+            j.note("fortran_ordered_queries_with_hull_columns_in_non_ascending_order")
+    ds = np.asarray(j.lib("score_samples", m.score_samples, Xq_in, y))
     j.ok("one distance per sample", ds.shape == (n,), ds.shape)
     j.ok("no training sample lies below the hull", float(ds.min()) >= -tol, float(ds.min()))
     j.ok("selected samples have zero distance", float(np.abs(ds[sorted(sel)]).max()) <= tol, float(np.abs(ds[sorted(sel)]).max()))
@@ -202,7 +209,7 @@ def run(case, j):
             break
     neg_idx = bool(case.get("low_as_array") and case.get("how", "ctor") == "ctor")
     if h > 0 and not neg_idx:  # (hull columns counted from the end also stay among the "high-dimensional" ones: DESIGN 11.5)
-        r = np.asarray(j.lib("score_feature_matrix", m.score_feature_matrix, Xin))
+        r = np.asarray(j.lib("score_feature_matrix", m.score_feature_matrix, forms.present(Xin, qform)))
         j.ok("residual matrix has one column per extra feature", r.shape == (n, h), r.shape)
         j.ok("selected samples have zero high-dimensional residual", float(np.nanmax(np.abs(r[sorted(sel)]))) <= (1e-9 if xdt != "float32" else 100 * float(np.finfo(np.float32).eps)) * max(1.0, float(np.abs(X).max())), float(np.nanmax(np.abs(r[sorted(sel)]))))
     # ---- queries inside the footprint
